@@ -55,7 +55,7 @@ def make_gate(path: str, name: str, args: list, nq: int):
             p = ps[0]
             par = "(" + (str(int(p)) if sig[-1] == "i" else f"{p:.25f}") + ")"
         src = f"version 3.0; qubit[{nq}] q; bit[2] b; {name}{par} {qs}"
-        c = shared_parser().circuit_from_string(src)      # one Parser object parses every program of the run
+        c = parse_shared(src)      # one Parser object parses every program of the run
         if len(c.ir.statements) != 1 or c.qubit_register_size != nq:
             raise RuntimeError(f"parsing one instruction on {nq} qubits gave {len(c.ir.statements)} statements on "
                                f"{c.qubit_register_size} qubits")
@@ -64,6 +64,7 @@ def make_gate(path: str, name: str, args: list, nq: int):
 
 
 _PARSER = None
+_PARSED: list = []       # [source the shared parser read before the last one, the last one]
 
 
 def shared_parser():
@@ -75,12 +76,51 @@ def shared_parser():
     return _PARSER
 
 
+def parse_shared(src):
+    _PARSED[:] = [_PARSED[-1] if _PARSED else None, src]
+    return shared_parser().circuit_from_string(src)
+
+
+def recorded(case):
+    """the case as it is written to a replay file: a parser-path case with the history of the shared parser that a
+    replay can re-create (the program it read immediately before this one)"""
+    if case["path"] != "parser" or len(_PARSED) < 2 or _PARSED[0] is None:
+        return case
+    return {**case, "parser_prev": _PARSED[0]}
+
+
+def replay_parser_history(case):
+    """a fresh shared parser that has read what the record says it had read before the case"""
+    global _PARSER
+    _PARSER = None
+    _PARSED[:] = []
+    if case.get("parser_prev"):
+        try:
+            parse_shared(case["parser_prev"])
+        except Exception:  # noqa: BLE001
+            pass
+
+
 def model_args(name, args):
     sig = gen.GATE_SIG[name]
     out = []
     for a, k in zip(args, sig):
         out.append([Sym("q"), int(a)] if k == "q" else [Sym("f"), float(a)] if k == "f" else [Sym("i"), int(a)])
     return out
+
+
+def make_gate_checked(ctx, c):
+    try:
+        return make_gate(c["path"], c["name"], c["args"], c["nq"])
+    except Exception as e:  # noqa: BLE001
+        ctx.oracle_fail("std", recorded(c), f"front end raised {type(e).__name__}: {e}", None)
+        ctx.seen(c)
+        return None
+
+
+def gate_request(c):
+    canonical = {"Hadamard": "H", "Identity": "I"}.get(c["name"], c["name"])
+    return ["default_gate", canonical, model_args(c["name"], c["args"])]
 
 
 def check_gate_case(ctx, case, obj, mres):
@@ -160,63 +200,72 @@ def run(ctx):
     if ctx.quick:
         full = rng.sample(full, min(len(full), 2500))
     ctx.suite("gates", cases=len(full))
-    objs, reqs, kept = [], [], []
+    objs, reqs, kept, recs = [], [], [], []
     for c in full:
-        try:
-            o = make_gate(c["path"], c["name"], c["args"], c["nq"])
-        except Exception as e:  # noqa: BLE001
-            ctx.oracle_fail("std", c, f"front end raised {type(e).__name__}: {e}", None)
-            ctx.seen(c)
+        o = make_gate_checked(ctx, c)
+        if o is None:
             continue
-        canonical = {"Hadamard": "H", "Identity": "I"}.get(c["name"], c["name"])
         objs.append(o)
         kept.append(c)
-        reqs.append(["default_gate", canonical, model_args(c["name"], c["args"])])
+        recs.append(recorded(c))
+        reqs.append(gate_request(c))
     mres = model.call_many(reqs)
-    for c, o, mr in zip(kept, objs, mres):
+    for c, rec, o, mr in zip(kept, recs, objs, mres):
         ctx.seen(c)
         ctx.bump("gate_" + c["name"])
         ctx.bump("path_" + c["path"])
-        check_gate_case(ctx, c, o, mr)
+        check_gate_case(ctx, rec, o, mr)
     ctx.sample(kept[0] if kept else None)
     ctx.sample(kept[-1] if kept else None)
     # measure / measure_z / reset: computational basis, named qubit and bit
-    from opensquirrel import CircuitBuilder
-    from opensquirrel.ir import Bit
-
     n_mr = 0
     for nq in (1, 2, 4):
         for q in range(nq):
             for b in range(2):
                 for nm in ("measure", "measure_z"):
-                    bld = CircuitBuilder(nq, 2)
-                    getattr(bld, nm)(q, Bit(b))
-                    s = bld.to_circuit().ir.statements[0]
-                    case = {"name": nm, "args": [q, b], "nq": nq, "path": "builder"}
-                    ctx.seen(case)
+                    check_measure_reset(ctx, {"name": nm, "args": [q, b], "nq": nq, "path": "builder"})
                     n_mr += 1
-                    ok = (int(s.qubit.index) == q and int(s.bit.index) == b and
-                          np.allclose(s.axis.value, [0, 0, 1], atol=0) and s.generator.__name__ == nm and
-                          [type(a).__name__ for a in s.arguments] == ["Qubit", "Bit"] and
-                          int(s.arguments[0].index) == q and int(s.arguments[1].index) == b)
-                    if not ok:
-                        ctx.oracle_fail("measure", case, "measure does not act in the computational basis on the named qubit and bit", None)
-            bld = CircuitBuilder(nq, 2)
-            bld.reset(q)
-            s = bld.to_circuit().ir.statements[0]
-            case = {"name": "reset", "args": [q], "nq": nq, "path": "builder"}
-            ctx.seen(case)
+            check_measure_reset(ctx, {"name": "reset", "args": [q], "nq": nq, "path": "builder"})
             n_mr += 1
-            if not (int(s.qubit.index) == q and s.generator.__name__ == "reset" and int(s.arguments[0].index) == q):
-                ctx.oracle_fail("measure", case, "reset does not act on the named qubit", None)
     ctx.suite("measure_reset", cases=n_mr)
 
 
+def check_measure_reset(ctx, case):
+    from opensquirrel import CircuitBuilder
+    from opensquirrel.ir import Bit
+
+    nm, nq, q = case["name"], case["nq"], case["args"][0]
+    bld = CircuitBuilder(nq, 2)
+    if nm == "reset":
+        bld.reset(q)
+        s = bld.to_circuit().ir.statements[0]
+        ctx.seen(case)
+        if not (int(s.qubit.index) == q and s.generator.__name__ == "reset" and int(s.arguments[0].index) == q):
+            ctx.oracle_fail("measure", case, "reset does not act on the named qubit", None)
+        return
+    b = case["args"][1]
+    getattr(bld, nm)(q, Bit(b))
+    s = bld.to_circuit().ir.statements[0]
+    ctx.seen(case)
+    ok = (int(s.qubit.index) == q and int(s.bit.index) == b and
+          np.allclose(s.axis.value, [0, 0, 1], atol=0) and s.generator.__name__ == nm and
+          [type(a).__name__ for a in s.arguments] == ["Qubit", "Bit"] and
+          int(s.arguments[0].index) == q and int(s.arguments[1].index) == b)
+    if not ok:
+        ctx.oracle_fail("measure", case, "measure does not act in the computational basis on the named qubit and bit", None)
+
+
 def replay(ctx, payload):
-    case = payload.get("case") or (payload.get("first_disagreement") or {}).get("case")
-    o = make_gate(case["path"], case["name"], case["args"], case["nq"])
-    canonical = {"Hadamard": "H", "Identity": "I"}.get(case["name"], case["name"])
-    mres = model.call_many([["default_gate", canonical, model_args(case["name"], case["args"])]])
-    check_gate_case(ctx, case, o, mres[0])
-    return {"gate": repr(o), "disagreements": ctx.disagreements, "oracle_failures": ctx.oracle_failures,
-            "fails": bool(ctx.oracle_failures)}
+    from harness import framework
+
+    suite, case = framework.replay_target(payload)
+    if case is None:
+        return framework.replay_nothing(payload)
+    if case["name"] in ("measure", "measure_z", "reset"):
+        check_measure_reset(ctx, case)
+        return framework.replay_result(ctx)
+    replay_parser_history(case)
+    o = make_gate_checked(ctx, case)
+    if o is not None:
+        check_gate_case(ctx, case, o, model.call_many([gate_request(case)])[0])
+    return framework.replay_result(ctx, gate=repr(o))
